@@ -14,3 +14,6 @@ chk("C02", "exploration", "differential reference-model monitor: IndexedSelect v
 chk("C03", "exploration", "differential reference-model monitor: IndexedSelectEq/PKSelect vs SQLite WHERE (+k) COLLATE c IS ? over stored keys and their neighbours",
     "Thousands of equality lookups per run: every prefix length, stored keys and single-column mutations across storage classes and collation-sensitive variants, incl. 2^53/2^63 neighbours. Held on the lookups made.",
     "SQLite 3.40.1 is the reference; unary + removes affinity so comparison is by storage class", "DESIGN.md 3 C03")
+chk("C12", "fault_enumeration", "fault-injection monitor: one-shot I/O error / short read at every page-read position of every operation (verif pager hook), result must be error + prefix",
+    "Exhaustive over the read positions 1..R of each operation run (R capped per op in quick tier, reported), two fault kinds, plus lock failure, on several page sizes and tree depths. Faults the reader cannot detect (bit flips) are out of scope of the property.",
+    "in-memory pager with the file pager's copy semantics stands in for the file; keys come from a fault-free scan", "DESIGN.md 3 C12")
